@@ -29,13 +29,16 @@ RULE = ("operations x 4 hashes x {seed, DH, P256, P384} x SID shapes (SD length 
         "shapes x {exact, covering} replies x provider {negotiate, ntlm, kerberos} x signature sizes x 1..4 legs (incl. empty final token) x header signing on/off x optional root key id, "
         "toy context, real NTLM and real SPNEGO(NTLM) through pyspnego, error replies (ept_map status, rejected context, GetKey failure); every case runs the sync AND the async API; non-trivial = all; distinct = distinct case text")
 PARTIAL = [
-    "C17_sync_async_partial: equality of _sync_get_key and _async_get_key is NOT a theorem about the source: the pair differs as normalised ASTs (rpc.request(0, ..) vs "
-    "rpc.request(context_id, ..), `with f() as rpc` vs `rpc = await f(); async with rpc`, default of root_key_id) and is therefore not in TWINS; proved: the two public pairs are "
-    "identical after normalisation (twin kernels), both flavours send the same ept_map context id, and the two flavours of the MODEL coincide whenever the two receive loops deliver "
-    "the same PDUs (C14); the tie of the two conversation functions to the model rests on the both-flavour correspondence online.refdc",
+    "C17_sync_async_partial (kept for the model-level statement) is now complemented by theorems ABOUT THE SOURCE: the regenerated whole bodies of _sync_get_key and "
+    "_async_get_key (flows k_flow_sync_get_key / k_flow_async_get_key) are each tied to get_key_conversation at their flavour for every peer script, provider script and security "
+    "context (C17_flow_sync_get_key, C17_flow_async_get_key; precondition: a non-empty auth_protocol), and C17_flow_get_key_sync_async states that the two regenerated functions return "
+    "the same envelope or the same error whenever the two receive loops deliver the same PDUs (C14); request() of the two clients is the same term (C17_flow_request_twin). What remains "
+    "partial: SyncRpcClient.bind is tied to the async body only syntactically (C15_flow_bind_twin: `self._auth.step(..)` mutates an attribute of a local, which the single-owner "
+    "semantics cannot express on the sync side), and RpcClient._prepare_pdu patches frag_len / auth_len through a memoryview alias (no honest tie: kernels k_fraglen_patch + "
+    "correspondence framing.request cover it)",
     "C17_result: proved as stated in the brief (accepted only after a successful unwrap of exactly the sealed region; the caller gets the envelope the conforming DC marshalled). "
     "The design-level extension `... and that envelope decrypts the blob / the blob produced from it decrypts, for every position, seed-key and public-key replies` is NOT proved as one "
-    "theorem (it is C01-C03 composed with C17_result; C01/C03 property files do not exist yet); it is checked by round trips against the reference DC in online.refdc",
+    "theorem (it is C01-C03 composed with C17_result); it is checked by round trips against the reference DC in online.refdc",
     "no liveness theorem: that a conforming peer script always leads to an envelope is shown by the Example C17_conversation_example (one complete conversation run inside Coq, both "
     "flavours) and by the correspondence, not for all scripts",
 ]
